@@ -537,3 +537,71 @@ def rule_field_copies(chk, P, rid, floor=100):
                             '%s: %s = %s copies field `%s`%s of %s onto field `%s`%s of %s in a block of same-name field copies' % (
                                 f.name, guards.lv(ev['lhs']), guards.lv(ev['rhs']), rr[1], '' if rr[2] is None else '[%d]' % rr[2], rt,
                                 l[1], '' if l[2] is None else '[%d]' % l[2], lt))
+
+
+# ------------------------------------------------------------------------------------------------------------------------------
+# X6: per-architecture siblings (names equal up to instruction-set tokens, defined in different files)
+
+ARCH_BASELINE = _os.path.join(_os.path.dirname(COPY_BASELINE), 'arch_siblings_baseline.json')
+
+
+def _arch_features(f):
+    conds, calls = collections.Counter(), collections.Counter()
+    with guards.in_function(f, abstract=True):
+        for bid, b in f.blocks.items():
+            t = b.get('term')
+            if t and ('fullcond' in t or 'cond' in t) and t['kind'] in ('IfStmt', 'WhileStmt', 'ForStmt', 'DoStmt'):
+                conds[t['kind'] + ' ' + _norm_digits(guards.canon(guards.expand(f, t.get('fullcond') or t.get('cond'), bid)))] += 1
+        for b, i, ev in f.events(('call',)):
+            fn = ev['e'].get('fn') or (ev['e'].get('callee') or {}).get('f') or '?'
+            calls[_norm_digits(stem(fn))] += 1
+    return conds, calls
+
+
+def arch_sibling_groups(P):
+    res = {}
+    for st, ms in _arch_groups(P).items():
+        by_name = {}
+        for m in ms:
+            by_name.setdefault((m.name, m.loc.split(':')[0]), m)
+        if len(by_name) >= 2:
+            res[st] = list(by_name.values())
+    return res
+
+
+def write_arch_baseline(P):
+    agree = []
+    for st, ms in sorted(arch_sibling_groups(P).items()):
+        fs = [_arch_features(m) for m in ms]
+        if all(x == fs[0] for x in fs):
+            agree.append(st)
+    with open(ARCH_BASELINE, 'w') as fh:
+        _json.dump({'what': 'functions defined once per architecture (names equal up to instruction-set tokens) that take the same decisions and '
+                            'call the same routines (up to those tokens and numbers) on the reference tree', 'groups': agree}, fh, indent=0)
+    return len(agree)
+
+
+def rule_arch_siblings(chk, P, rid, floor=60):
+    r = chk.rule(rid, 'the per-architecture versions of one function (init_mb_mgr_sse/avx2/avx512, submit_snow3g_uea2_job_<variant>, ...) that '
+                      'take the same decisions and make the same calls on the reference tree still do: a guard or a call dropped in one '
+                      'architecture only makes that variant behave differently', floor=floor)
+    if not _os.path.exists(ARCH_BASELINE):
+        chk.broken('architecture-sibling baseline missing')
+        return
+    base = set(_json.load(open(ARCH_BASELINE))['groups'])
+    for st, ms in sorted(arch_sibling_groups(P).items()):
+        if st not in base:
+            continue
+        fs = [(m, _arch_features(m)) for m in ms]
+        forms = collections.Counter(repr(sorted(x[1][0].items())) + repr(sorted(x[1][1].items())) for x in fs)
+        major = forms.most_common(1)[0][0]
+        for m, ft in fs:
+            mine = repr(sorted(ft[0].items())) + repr(sorted(ft[1].items()))
+            if mine == major:
+                r.ok('%s:%s@%s' % (st, m.name, _os.path.basename(m.loc.split(':')[0])), len(ms))
+                continue
+            other = next(x for x in fs if repr(sorted(x[1][0].items())) + repr(sorted(x[1][1].items())) == major)
+            dc = sorted('%s x%d' % (k, v) for k, v in (ft[0] - other[1][0]).items()) + sorted('%s x%d' % (k, v) for k, v in (ft[1] - other[1][1]).items())
+            oc = sorted('%s x%d' % (k, v) for k, v in (other[1][0] - ft[0]).items()) + sorted('%s x%d' % (k, v) for k, v in (other[1][1] - ft[1]).items())
+            r.bad('%s:%s@%s' % (st, m.name, _os.path.basename(m.loc.split(':')[0])), m.loc, '%s differs from its sibling %s: only here %s; only there %s' % (
+                m.name, other[0].name, dc[:4] or '-', oc[:4] or '-'))
